@@ -66,9 +66,8 @@ def hcSteps : RCache → List Json → List String → List String
     let m := bytesOf (jStr j "m")
     match jStr j "k" with
     | "ins" =>
-      match c.insert key m u.query (jNat j "sz") (jInt j "exp") with
-      | .ok c' => hcSteps c' js (s!"ins:ok {showCache c'}" :: acc)
-      | _ => ("ins:hang" :: acc).reverse
+      let c' := c.insert key m u.query (jNat j "sz") (jInt j "exp")
+      hcSteps c' js (s!"ins:ok {showCache c'}" :: acc)
     | "get" =>
       let (c', r) := c.get (jInt j "now") key m u.query
       let o := match r with | some e => s!"get:hit{e.id}" | none => "get:miss"
@@ -83,7 +82,6 @@ def hcSteps : RCache → List Json → List String → List String
       let a := jObj j "ans"
       let inner : Inner := if jBool a "fail" then .fail else .resp (jNat a "sz") (if jHas a "ca" then some (jInt a "ca") else none)
       match c.roundTrip (jInt j "now") maxCacheUnits key m u.query inner with
-      | (_, .hang) => ("rt:hang" :: acc).reverse
       | (c', .hit e) => hcSteps c' js (s!"rt:hit{e.id} {showCache c'}" :: acc)
       | (c', .net st) => hcSteps c' js (s!"rt:net:{st} {showCache c'}" :: acc)
       | (c', .netErr) => hcSteps c' js (s!"rt:err {showCache c'}" :: acc)
